@@ -99,6 +99,8 @@ def load_known():
                 fixed.append(line)
     return known, fixed
 
+TESTRE = "^TestVerif$"
+
 def run_workers(binp, sc, pid, tier, seed, runs, pos_budget, budget_s, nworkers, extra_env=None):
     procs = []
     for w in range(nworkers):
@@ -109,7 +111,7 @@ def run_workers(binp, sc, pid, tier, seed, runs, pos_budget, budget_s, nworkers,
         if extra_env:
             env.update(extra_env)
         lf = open(os.path.join(sc.out, "w%d.log" % w), "w")
-        procs.append((w, subprocess.Popen([binp, "-test.run", "^TestVerif$", "-test.timeout", "12h", "-test.count", "1"],
+        procs.append((w, subprocess.Popen([binp, "-test.run", TESTRE, "-test.timeout", "12h", "-test.count", "1"],
                                           env=env, stdout=lf, stderr=subprocess.STDOUT, cwd=sc.fs), lf))
     sums, infra = [], []
     deadline = time.time() + budget_s + 300
@@ -164,6 +166,8 @@ def cmd_check(pid, tier):
     if pid not in props:
         die("unknown property " + pid)
     cfg = props[pid]
+    global TESTRE
+    TESTRE = "^%s$" % cfg.get("test", "TestVerif")
     t0 = time.time()
     seed = int(os.environ.get("VERIF_SEED", "1") or "1")
     tc = cfg[tier]
@@ -195,7 +199,7 @@ def cmd_check(pid, tier):
             shutil.copy(f["replay"], dst)
             # the replay must reproduce in a fresh process
             env = dict(ENV, VERIF_PROP=pid, VERIF_REPLAY=dst, VERIF_FS=sc.fs, GOMAXPROCS="2", VERIF_OUT=os.path.join(sc.out, "replay.json"))
-            subprocess.run([binp, "-test.run", "^TestVerif$", "-test.count", "1"], env=env, stdout=subprocess.DEVNULL, stderr=subprocess.DEVNULL, cwd=sc.fs)
+            subprocess.run([binp, "-test.run", TESTRE, "-test.count", "1"], env=env, stdout=subprocess.DEVNULL, stderr=subprocess.DEVNULL, cwd=sc.fs)
             try:
                 outcome = json.load(open(os.path.join(sc.out, "replay.json")))["outcome"]
             except Exception as ex:
@@ -275,22 +279,26 @@ def cmd_check(pid, tier):
 
 def cmd_replay(pid, path):
     props = load_props()
+    global TESTRE
+    TESTRE = "^%s$" % props[pid].get("test", "TestVerif")
     sc = Scratch()
     try:
         binp = prepare(sc, props[pid]["pkg"])
         env = dict(ENV, VERIF_PROP=pid, VERIF_REPLAY=os.path.abspath(path), VERIF_FS=sc.fs, GOMAXPROCS="2", VERIF_REPLAY_TRACE=os.environ.get("VERIF_REPLAY_TRACE", ""))
-        r = subprocess.run([binp, "-test.run", "^TestVerif$", "-test.count", "1"], env=env, cwd=sc.fs)
+        r = subprocess.run([binp, "-test.run", TESTRE, "-test.count", "1"], env=env, cwd=sc.fs)
         return r.returncode if r.returncode in (0, 1) else 2
     finally:
         sc.cleanup()
 
 def cmd_one(pid, seed, params):
     props = load_props()
+    global TESTRE
+    TESTRE = "^%s$" % props[pid].get("test", "TestVerif")
     sc = Scratch()
     try:
         binp = prepare(sc, props[pid]["pkg"])
         env = dict(ENV, VERIF_PROP=pid, VERIF_ONE=str(seed), VERIF_PARAMS=params, VERIF_FS=sc.fs, GOMAXPROCS="2", VERIF_TIER=os.environ.get("VERIF_TIER", "quick"), VERIF_TWICE=os.environ.get("VERIF_TWICE", ""), VERIF_PRE=os.environ.get("VERIF_PRE", ""))
-        r = subprocess.run([binp, "-test.run", "^TestVerif$", "-test.count", "1"], env=env, cwd=sc.fs)
+        r = subprocess.run([binp, "-test.run", TESTRE, "-test.count", "1"], env=env, cwd=sc.fs)
         return 0
     finally:
         sc.cleanup()
@@ -308,7 +316,7 @@ def cmd_selftest(pid, n):
                 o = os.path.join(sc.out, "st-%s-%d.json" % (gmp, k))
                 env = dict(ENV, VERIF_PROP=pid, VERIF_TIER="quick", VERIF_SEED="7", VERIF_RUNS=str(n), VERIF_SHARD="0/1", VERIF_OUT=o,
                            VERIF_REPLAY_DIR=sc.out, VERIF_FS=sc.fs, GOMAXPROCS=gmp, VERIF_HASHLOG=o + ".hashes")
-                procs.append((gmp, k, o, subprocess.Popen([binp, "-test.run", "^TestVerif$", "-test.count", "1"], env=env, stdout=subprocess.DEVNULL, stderr=subprocess.DEVNULL, cwd=sc.fs)))
+                procs.append((gmp, k, o, subprocess.Popen([binp, "-test.run", TESTRE, "-test.count", "1"], env=env, stdout=subprocess.DEVNULL, stderr=subprocess.DEVNULL, cwd=sc.fs)))
         for gmp, k, o, p in procs:
             p.wait()
             try:
